@@ -126,6 +126,9 @@ type Op struct {
 	release  chan struct{}
 	released bool
 	cancellable bool
+	// Urgent operations are instantaneous in reality (Close): fake time never
+	// passes while one is parked.
+	Urgent bool
 	relSeq   int
 	task     string
 }
@@ -135,7 +138,16 @@ type Op struct {
 // goroutine immediately before the operation is released, under SEQ inline.
 // It returns nil if ctx ended before the scheduler released the operation.
 func (e *Env) Begin(obj, kind string, ctx context.Context, decide func(*Tape)) *Op {
-	o := &Op{env: e, Obj: obj, Kind: kind, decide: decide}
+	return e.begin(obj, kind, ctx, decide, false)
+}
+
+// BeginUrgent is Begin for operations during which no fake time may pass.
+func (e *Env) BeginUrgent(obj, kind string, decide func(*Tape)) *Op {
+	return e.begin(obj, kind, nil, decide, true)
+}
+
+func (e *Env) begin(obj, kind string, ctx context.Context, decide func(*Tape), urgent bool) *Op {
+	o := &Op{env: e, Obj: obj, Kind: kind, decide: decide, Urgent: urgent}
 	if e.K1 == nil {
 		if decide != nil {
 			decide(e.Tape)
